@@ -3,6 +3,7 @@ under test (HasTraits.observe / observation.observe.apply_observers) and records
 the outcome class, the handler calls and a canonical snapshot of EVERY notifier list of every pool
 object (instance traits incl. trait_added, the object's own list, the TraitList/Dict/Set notifiers):
 handler identity, target, dispatcher, reference count, maintainer kind and graph."""
+import asyncio
 import gc
 import inspect
 import json
@@ -102,6 +103,9 @@ class AOwner:
 
     async def meth(self, event):
         self.calls.append(self.i)
+
+
+LOOP = asyncio.new_event_loop()
 
 
 def build_graph(t):
@@ -242,91 +246,100 @@ def run_case(case):
     counter = [1000]
     exc = None
     hist = []
-    for op in case["ops"]:
-        del calls[:]
-        k = op[0]
-        out, dead, graphs, mut = "Ok", None, None, None
-        try:
-            if k in ("Reg", "Unreg"):
-                _, root, hid, dsp, gtrees, text = op
-                if text is not None:
-                    # a string, or a list of strings (HasTraits.observe accepts both)
-                    graphs = [graph_json(g) for g in _compile_expression(text)]
-                    pool[root].observe(handlers[hid], text, remove=(k == "Unreg"), dispatch={0: "same", 2: "ui"}[dsp])
-                else:
-                    observe_api.apply_observers(
-                        pool[root], graphs=[build_graph(t) for t in gtrees], handler=handlers[hid],
-                        dispatcher=DISPATCHERS[dsp], remove=(k == "Unreg"))
-            elif k == "Change":
-                counter[0] += 1
-                setattr(pool[op[1]], FNAME[op[2]], counter[0])
-            elif k == "SetLink":
-                # ["SetLink", i, "f"|"g", j or None]
-                setattr(pool[op[1]], op[2], None if op[3] is None else pool[op[3]])
-            elif k == "Mut":
-                # in-place container mutation ["Mut", i, "kids"|"m"|"s", what, args...]
-                o_ = pool[op[1]]
-                c_ = getattr(o_, op[2])
-                what, a = op[3], op[4:]
-                removed, added, fired = [], [], True
-                exc = None
-                try:
-                    if what == "append":
-                        added = [a[0]]
-                        c_.append(pool[a[0]])
-                    elif what == "pop":
-                        removed = [idx_of[id(c_[a[0]])]]
-                        c_.pop(a[0])
-                    elif what == "setitem":
-                        removed, added = [idx_of[id(c_[a[0]])]], [a[1]]
-                        c_[a[0]] = pool[a[1]]
-                    elif what == "dset":
-                        removed, added = ([idx_of[id(c_[a[0]])]] if a[0] in c_ else []), [a[1]]
-                        c_[a[0]] = pool[a[1]]
-                    elif what == "ddel":
-                        removed = [idx_of[id(c_[a[0]])]]
-                        del c_[a[0]]
-                    elif what == "sadd":
-                        fired = pool[a[0]] not in c_
-                        added = [a[0]] if fired else []
-                        c_.add(pool[a[0]])
-                    elif what == "sdiscard":
-                        fired = pool[a[0]] in c_
-                        removed = [a[0]] if fired else []
-                        c_.discard(pool[a[0]])
+    # The history runs inside a running event loop, so that dispatch_same can schedule coroutine-function
+    # handlers as tasks (observe.py dispatch_same).
+    async def run_ops():
+        nonlocal prev, exc
+        for op in case["ops"]:
+            del calls[:]
+            k = op[0]
+            out, dead, graphs, mut = "Ok", None, None, None
+            try:
+                if k in ("Reg", "Unreg"):
+                    _, root, hid, dsp, gtrees, text = op
+                    if text is not None:
+                        # a string, or a list of strings (HasTraits.observe accepts both)
+                        graphs = [graph_json(g) for g in _compile_expression(text)]
+                        pool[root].observe(handlers[hid], text, remove=(k == "Unreg"), dispatch={0: "same", 2: "ui"}[dsp])
                     else:
-                        raise RuntimeError(what)
-                except Exception as e_:  # noqa
-                    exc = e_
-                after = list(c_.values()) if isinstance(c_, dict) else list(c_)
-                mut = {"items": [idx_of[id(v)] for v in after], "removed": removed, "added": added, "fired": fired}
-                o_ = c_ = after = None
-                if exc is not None:
-                    e_ = None
-                    raise exc
-            elif k == "CollectOwner":
-                wr = weakref.ref(owners[op[1]])
-                owners[op[1]] = None
-                handlers[op[1]] = None
-                gc.collect()
-                dead = wr() is None
-            elif k == "CollectObj":
-                i = op[1]
-                wr = weakref.ref(pool[i])
-                del idx_of[id(pool[i])]
-                pool[i] = None
-                gc.collect()
-                dead = wr() is None
-                dead_objs.add(i)
-            else:
-                raise ValueError(k)
-        except Exception as e:  # noqa
-            out = dlib.exn_name(e, EXN)
-        exc = None
-        cur = snapshot()
-        hist.append({"out": out, "calls": list(calls), "snap": delta(prev, cur), "dead": dead, "graphs": graphs,
-                     "mut": mut})
-        prev = cur
+                        observe_api.apply_observers(
+                            pool[root], graphs=[build_graph(t) for t in gtrees], handler=handlers[hid],
+                            dispatcher=DISPATCHERS[dsp], remove=(k == "Unreg"))
+                elif k == "Change":
+                    counter[0] += 1
+                    setattr(pool[op[1]], FNAME[op[2]], counter[0])
+                elif k == "SetLink":
+                    # ["SetLink", i, "f"|"g", j or None]
+                    setattr(pool[op[1]], op[2], None if op[3] is None else pool[op[3]])
+                elif k == "Mut":
+                    # in-place container mutation ["Mut", i, "kids"|"m"|"s", what, args...]
+                    o_ = pool[op[1]]
+                    c_ = getattr(o_, op[2])
+                    what, a = op[3], op[4:]
+                    removed, added, fired = [], [], True
+                    exc = None
+                    try:
+                        if what == "append":
+                            added = [a[0]]
+                            c_.append(pool[a[0]])
+                        elif what == "pop":
+                            removed = [idx_of[id(c_[a[0]])]]
+                            c_.pop(a[0])
+                        elif what == "setitem":
+                            removed, added = [idx_of[id(c_[a[0]])]], [a[1]]
+                            c_[a[0]] = pool[a[1]]
+                        elif what == "dset":
+                            removed, added = ([idx_of[id(c_[a[0]])]] if a[0] in c_ else []), [a[1]]
+                            c_[a[0]] = pool[a[1]]
+                        elif what == "ddel":
+                            removed = [idx_of[id(c_[a[0]])]]
+                            del c_[a[0]]
+                        elif what == "sadd":
+                            fired = pool[a[0]] not in c_
+                            added = [a[0]] if fired else []
+                            c_.add(pool[a[0]])
+                        elif what == "sdiscard":
+                            fired = pool[a[0]] in c_
+                            removed = [a[0]] if fired else []
+                            c_.discard(pool[a[0]])
+                        else:
+                            raise RuntimeError(what)
+                    except Exception as e_:  # noqa
+                        exc = e_
+                    after = list(c_.values()) if isinstance(c_, dict) else list(c_)
+                    mut = {"items": [idx_of[id(v)] for v in after], "removed": removed, "added": added, "fired": fired}
+                    o_ = c_ = after = None
+                    if exc is not None:
+                        e_ = None
+                        raise exc
+                elif k == "CollectOwner":
+                    wr = weakref.ref(owners[op[1]])
+                    owners[op[1]] = None
+                    handlers[op[1]] = None
+                    gc.collect()
+                    dead = wr() is None
+                elif k == "CollectObj":
+                    i = op[1]
+                    wr = weakref.ref(pool[i])
+                    del idx_of[id(pool[i])]
+                    pool[i] = None
+                    gc.collect()
+                    dead = wr() is None
+                    dead_objs.add(i)
+                else:
+                    raise ValueError(k)
+            except Exception as e:  # noqa
+                out = dlib.exn_name(e, EXN)
+            exc = None
+            # two turns of the loop: coroutine handlers scheduled by dispatch_same run now
+            await asyncio.sleep(0)
+            await asyncio.sleep(0)
+            cur = snapshot()
+            hist.append({"out": out, "calls": list(calls), "snap": delta(prev, cur), "dead": dead, "graphs": graphs,
+                         "mut": mut})
+            prev = cur
+
+    LOOP.run_until_complete(run_ops())
     # registrations must not keep the observed objects alive (handlers are still held here)
     wrs = [weakref.ref(x) for x in pool if x is not None]
     o = d = c = vals = ow = None
